@@ -14,12 +14,20 @@ func randomScript(r *rand.Rand, id int, big bool) *Script {
 	grid := []int{0, 0, 1, 1, 2, 3, 5}
 	sc := &Script{ID: id}
 	if big {
-		sc.Workers = []int{1, 4, 16, 64}[r.Intn(4)]
-		sc.MaxWorkers = []int{-1, 1, 8, 64, 64}[r.Intn(5)]
+		sc.Workers = []int{1, 4, 16, 64, r.Intn(40), 8 + r.Intn(12)}[r.Intn(6)]
+		sc.MaxWorkers = []int{-1, 1, 8, 64, 64, sc.Workers + 1 + r.Intn(3), sc.Workers + r.Intn(20)}[r.Intn(7)] // also bounds just above the initial pool
 		sc.MaxHits = 200 + r.Intn(1800)
 		sc.Waits = []int{[]int{0, 0, 1}[r.Intn(3)]}
+		saturate := sc.MaxWorkers > 0 && r.Intn(2) == 0 // slow answers and an eager pacer: the pool grows to its bound and stays there
+		if saturate {
+			sc.Waits = []int{0, 0, 0, 1}
+		}
 		for i := 0; i < 40; i++ {
-			sc.Lat = append(sc.Lat, []int{0, 1, 2, 7, 30}[r.Intn(5)])
+			lat := []int{0, 1, 2, 7, 30}[r.Intn(5)]
+			if saturate {
+				lat = 20 + r.Intn(30)
+			}
+			sc.Lat = append(sc.Lat, lat)
 			sc.Cons = append(sc.Cons, []int{0, 0, 0, 1}[r.Intn(4)])
 		}
 		if r.Intn(3) == 0 {
